@@ -214,9 +214,10 @@ func New(r *hx.Run, mtu int, sack bool, rcvBuf, sndBuf int, cc string) *World {
 	w.S = netsim.NewStack()
 	lid, l := netsim.NewLink(uint32(mtu), "", 0)
 	w.L = l
-	w.S.CreateNIC(1, lid)
+	netsim.CreateNIC(w.S, 1, lid, l)
+	netsim.NotePort(w.S, LPort)
 	w.S.AddAddress(1, header.IPv4ProtocolNumber, tcpip.Address(Local))
-	w.S.SetRouteTable([]tcpip.Route{{Destination: "\x00\x00\x00\x00", Mask: "\x00\x00\x00\x00", NIC: 1}})
+	netsim.SetRoutes(w.S, []tcpip.Route{{Destination: "\x00\x00\x00\x00", Mask: "\x00\x00\x00\x00", NIC: 1}})
 	w.S.SetTransportProtocolOption(tcp.ProtocolNumber, tcp.SACKEnabled(sack))
 	if rcvBuf > 0 {
 		w.S.SetTransportProtocolOption(tcp.ProtocolNumber, tcp.ReceiveBufferSizeOption{Min: 1, Default: rcvBuf, Max: 4 << 20})
